@@ -1,8 +1,14 @@
 import Ts.Lemmas.C10
 import Ts.Lemmas.C10b
+import Ts.Lemmas.C10c
 import Ts.Props.C06
+import Ts.Props.C05History
 /-!
 # C10 — re-transmission of an already applied PAT / PMT version is a no-op
+
+**Status: the property as written is FALSE of the pinned code in two ways (known findings F8, F9);
+what is proved is the property per handler INSTANCE and per packetisation that puts at least the
+8-byte fixed header into the starting packet.**
 
 Observation points: the `Psi.table` chain (`SectionSyntaxSectionProcessor` → `DedupSection…` →
 `BufferSectionSyntaxParser`; its deliveries are what reaches the CRC layer), the application's
@@ -14,13 +20,30 @@ tag counter; change list = queued insertions / removals), and the dispatcher (`D
   model's `tshVersion`.
 * `Quiescent v s`: the dedup layer remembers `v` and the buffer layer is `Complete` — the state
   right after version `v` was delivered (`applied_sets_version`), preserved by repetitions.
+  NOTE: this is a statement about the INTERNAL field `lastVersion` of ONE handler instance.
 * `dedup_blocks_equal_version` (+ `_n`, `dedup_blocks_repetition_payloads`): NO delivery at all.
 * `pat_handler_noop`, `pmt_handler_noop`, `no_payload_packet_noop`: context unchanged, no change.
 * `repetition_block_noop`, `repetition_run_noop`, `es_handlers_untouched`,
-  `pes_straddles_repetition`: dispatcher level.
+  `pes_straddles_repetition`, `repetitions_deletable`: dispatcher level.
+
+The full-strength statement and its gaps:
+
+* `C10_full` — the property over whole HISTORIES (`Spec.RoutingHistory` events realised by packets,
+  from `Demultiplex::new`), "last applied on that PID" read off the history (`lastAppliedOn`).
+* `C10_full_false`, `C10_F9_counterexample` — **F9**: PAT v0, PMT v0, PAT v1 (same program), PMT v0
+  again: the PAT version change rebuilt the PMT handler, the rebuilt filter has forgotten version 0,
+  the PMT is re-applied, the elementary-stream handler is replaced (tag 2 → tag 4) mid-PES-packet.
+* `C10_partial`, `C10_partial'`, `C10_gap_is_F9` — true with the extra hypothesis "no PAT version
+  listing `p` was applied since the last table applied on `p`"; that is the ONLY gap at history level.
+* `short_start_resets`, `short_start_then_repeat_reapplied`, `C10_any_cut_false`,
+  `C10_straddle_counterexample` — **F8**: a unit-start packet with fewer than 3 section bytes after
+  the pointer bytes resets the dedup layer; the next ordinary repetition is re-applied.  Such
+  packetisations are excluded from every theorem here by `RepPayload` → `WellFormedMux`'s clause
+  `minHeader kind ≤ (S.take m.k ++ m.tailBytes).length`, and from `C10_full` by `Realises`.
 -/
 namespace Ts.Props.C10
 open Ts Ts.Psi Ts.Spec Ts.Spec.SectionMux Ts.Lemmas.C03 Ts.Lemmas.C10 Ts.App Ts.Demux
+open Ts.Tables Ts.Spec.RoutingHistory Ts.Lemmas.C05H Ts.Lemmas.C05Run
 
 /-! ### vocabulary, spelled out -/
 
@@ -83,9 +106,16 @@ theorem repRel_iff (v : Nat) (h' : Handler) :
 /-- **C10, section filter.**  In every quiescent state (version `v` remembered, buffer
 `Complete`; the flags `ignoreRest` / `dedupIgnore` and the buffer contents arbitrary), every
 well-formed section-syntax section with `version_number = v`, in every well-formed packetisation
-(any `pointer_field` bytes, any first share, any number of continuation payloads, trailing
-stuffing, extra continuation payloads) at any payload offsets: the `Psi.table` chain does not panic
-and delivers NOTHING; the state is quiescent again, the inner buffer untouched. -/
+(any `pointer_field` bytes, any first share OF AT LEAST 8 BYTES, any number of continuation
+payloads, trailing stuffing, extra continuation payloads) at any payload offsets: the `Psi.table`
+chain does not panic and delivers NOTHING; the state is quiescent again, the inner buffer untouched.
+
+Scope, precisely.  (1) `hm : WellFormedMux .syntax S m` contains `8 ≤ (S.take m.k ++ m.tailBytes).length`:
+the starting packet carries the whole 8-byte fixed header.  A start carrying 0–2 section bytes is NOT
+covered and is NOT a no-op: it resets the chain (`short_start_resets`, known finding F8); a start
+carrying 3–7 bytes is not covered either (it sets `ignoreRest`; harmless, not proved here).
+(2) `hq : Quiescent v s` is about the field `lastVersion` of THIS filter instance; it says nothing about
+what was last applied on the PID by an earlier instance (known finding F9, `C10_full_false`). -/
 theorem dedup_blocks_equal_version (v : Nat) (s : St) (hq : Quiescent v s)
     (S : Bytes) (hS : WellFormedSection .syntax S) (h8 : 8 ≤ S.length) (hv : versionOf S = v)
     (m : Mux) (hm : WellFormedMux .syntax S m)
@@ -172,7 +202,11 @@ theorem applied_once_then_repeated (S : Bytes) (hS : WellFormedSection .syntax S
 whose payload view is a repetition payload, or that has no payload): `consume` returns the context
 `c` UNCHANGED (no `construct` request, no trace event, no tag consumed) and an EMPTY change list
 (nothing inserted, replaced or removed); the handler is again a PAT handler with the same
-registered set and a quiescent filter. -/
+registered set and a quiescent filter.
+
+Scope: per handler instance (`hq` speaks of this instance's `lastVersion`); `hp : RepPacket` admits
+only unit starts with at least 8 section bytes in the starting packet (`RepPayload` →
+`WellFormedMux`), which excludes the resetting short start of F8. -/
 theorem pat_handler_noop (v : Nat) (s : St) (reg : List Nat) (hq : Quiescent v s) (c : Ctx) (pk : Pk)
     (hp : RepPacket v pk.bytes) :
     ∃ s', App.consume (.pat s reg) c pk = .ok (.pat s' reg, c, [])
@@ -181,7 +215,10 @@ theorem pat_handler_noop (v : Nat) (s : St) (reg : List Nat) (hq : Quiescent v s
   refine ⟨s', ?_, h2, h3⟩
   rw [consume_pat_eq s s' reg c pk [] h1]; rfl
 
-/-- **C10, PMT handler** -/
+/-- **C10, PMT handler** — same statement and same scope as `pat_handler_noop`.  "Per handler
+instance" matters here: every applied PAT version builds a FRESH PMT handler (`lastVersion = none`)
+for every program it lists, so after a PAT version change the new instance is not `Quiescent` at the
+PMT version its predecessor applied (F9). -/
 theorem pmt_handler_noop (v : Nat) (pid prog : Nat) (s : St) (reg : List Nat) (hq : Quiescent v s)
     (c : Ctx) (pk : Pk) (hp : RepPacket v pk.bytes) :
     ∃ s', App.consume (.pmt pid prog s reg) c pk = .ok (.pmt pid prog s' reg, c, [])
@@ -216,7 +253,9 @@ theorem no_payload_is_repPacket (v : Nat) (p : Bytes) (hl : p.length = 188) (hn 
 /-- **C10, dispatcher.**  `t` holds a quiescent PAT / PMT handler `h` in the slot of `pk.pid`; `pk`
 is an unflagged repetition packet.  One step of the dispatcher returns the SAME context and the
 table `t` with that one slot rewritten by an equivalent handler `h'` (`RepRel`: same kind,
-parameters and registered set, quiescent, buffer untouched). -/
+parameters and registered set, quiescent, buffer untouched).
+Scope as for `pat_handler_noop`: `hq` is per handler instance (excludes F9), `hp` excludes short
+starts (F8).  `C10_partial` derives both hypotheses from a history. -/
 theorem repetition_block_noop (v : Nat) (t : Tab Handler) (c : Ctx) (pk : Pk) (h : Handler)
     (hg : t.get pk.pid = some h) (hq : QuiescentH v h) (hf : pk.flagged = false)
     (hp : RepPacket v pk.bytes) :
@@ -226,9 +265,11 @@ theorem repetition_block_noop (v : Nat) (t : Tab Handler) (c : Ctx) (pk : Pk) (h
   exact ⟨h', h1, h2, fun q hq' => Tab.get_insert_ne _ _ _ _ hq'⟩
 
 /-- the same for the real loops of `Demultiplex::push` on a whole buffer of repetition packets
-of possibly several table PIDs (`ver pid` = the version the handler of `pid` is quiescent at):
-same context; every slot not addressed by the packets is exactly as before; every quiescent table
-handler is at most replaced by an equivalent one -/
+of possibly several table PIDs (`ver pid` = the version the handler INSTANCE of `pid` is quiescent
+at): same context; every slot not addressed by the packets is exactly as before; every quiescent
+table handler is at most replaced by an equivalent one.  This is the n-fold, multi-packet form
+("however often it repeats and however many packets it spans") — for packetisations whose starting
+packets carry at least 8 section bytes (`RepPacket`; see F8) and per handler instance (see F9). -/
 theorem repetition_run_noop (ver : Nat → Nat) (t : Tab Handler) (c : Ctx) (pks : List Pk)
     (h : ∀ pk ∈ pks, pk.flagged = false ∧ RepPacket (ver pk.pid) pk.bytes
       ∧ ∃ h, t.get pk.pid = some h ∧ QuiescentH (ver pk.pid) h) :
@@ -266,7 +307,11 @@ theorem es_handlers_untouched (ver : Nat → Nat) (t : Tab Handler) (c : Ctx) (p
 packets between them.  If the run WITHOUT the repetitions succeeds with context `cB`, the run WITH
 them succeeds with exactly the same context — the trace of `start_stream` / `begin_packet` /
 `continue_packet` / `end_packet` / `continuity_error` events is identical: no second stream start,
-no spurious packet end or continuity error — and the stream handler ends in the same state. -/
+no spurious packet end or continuity error — and the stream handler ends in the same state.
+Scope: every packet of `reps` must be a repetition on a handler instance quiescent at that version
+(`hreps`; F8 and F9 are exactly the situations where this fails and the ES handler IS replaced
+mid-packet).  `repetitions_deletable` generalises the shape `[pk1] ++ reps ++ [pk2]` to arbitrary
+interleavings with the packets of any number of elementary-stream PIDs. -/
 theorem pes_straddles_repetition (ver : Nat → Nat) (t : Tab Handler) (c : Ctx) (pk1 pk2 : Pk)
     (reps : List Pk) (tag : Nat) (f : PesFilter.F) (hpid : pk2.pid = pk1.pid)
     (hg : t.get pk1.pid = some (.pes tag f))
@@ -360,5 +405,571 @@ tag counter nor the trace -/
 example : summary (runApp {} [pktOf patGood]) = some (481, 2, 2)
     ∧ summary (runApp {} [pktOf patGood ++ pktOf patGood ++ contPkt ++ pktOf patGood]) = some (481, 2, 2) := by
   decide +kernel
+
+/-! ## The property at full strength, its two gaps (F8, F9), and the strongest true statement -/
+
+/-! ### vocabulary, spelled out -/
+
+/-- a unit-start payload `b` (`b[0]` = `pointer_field`) with fewer than 3 bytes after the pointer bytes -/
+theorem shortStart_iff (b : Bytes) : ShortStart b ↔ (1 ≤ b.length ∧ b.length < byteD b 0 + 4) := Iff.rfl
+
+/-- the version an event applies on PID `p`: a PAT on PID 0, a PMT on its own PID `p ≠ 0` -/
+theorem appliedOn_iff (p : Nat) :
+    (∀ v es, appliedOn p (.patApplied v es) = if p = 0 then some v else none)
+    ∧ (∀ q v b, appliedOn p (.pmtApplied q v b) = if p ≠ 0 ∧ q = p then some v else none)
+    ∧ (∀ q, appliedOn p (.esPacket q) = none) ∧ (∀ q, appliedOn p (.repetition q) = none) :=
+  ⟨fun _ _ => rfl, fun _ _ _ => rfl, fun _ => rfl, fun _ => rfl⟩
+
+/-- "the version of the section last applied on PID `p`": the last event of the HISTORY that applies
+a table on `p` -/
+theorem lastAppliedOn_iff (p v : Nat) (evs : List Event) :
+    lastAppliedOn p evs = some v ↔
+      ∃ pre ev post, evs = pre ++ ev :: post ∧ appliedOn p ev = some v ∧ ∀ e ∈ post, appliedOn p e = none :=
+  ⟨lastAppliedOn_split p v evs,
+   fun ⟨pre, ev, post, e, h1, h2⟩ => by rw [e]; exact lastAppliedOn_of_split p v pre post ev h1 h2⟩
+
+theorem tablePid_iff (r : Route) (p : Nat) :
+    tablePid r p = true ↔
+      ((p = 0 ∧ ∃ tag, r.slots 0 = some (.byPid 0, tag)) ∨ (p ≠ 0 ∧ ∃ prog tag, r.slots p = some (.pmt p prog, tag))) := by
+  unfold tablePid
+  by_cases hp : p = 0
+  · subst hp; rw [if_pos rfl, patRouted_iff]; simp
+  · rw [if_neg hp, pmtRouted_iff]; simp [hp]
+
+theorem rebuiltSinceLast_iff (p : Nat) (evs : List Event) :
+    RebuiltSinceLast p evs ↔
+      ∃ pre ev post, evs = pre ++ ev :: post ∧ (appliedOn p ev).isSome = true
+        ∧ (∀ e ∈ post, appliedOn p e = none)
+        ∧ ∃ e ∈ post, ∃ v es, e = .patApplied v es ∧ p ∈ es.map PatEntry.pid := Iff.rfl
+
+theorem legalMux_iff (kind : Kind) (S : Bytes) (m : Mux) :
+    WellFormedMux kind S m ↔ (LegalMux S m ∧ minHeader kind ≤ (S.take m.k ++ m.tailBytes).length) :=
+  wellFormedMux_iff_legal kind S m
+
+/-! ### F8: a short start resets the de-duplication -/
+
+/-- **F8 mechanism.**  `q`: the payload of a unit-start packet with fewer than 3 bytes after its
+pointer bytes (the 3-byte section header straddles two packets, or the pointer reaches the end of
+the payload).  From ANY state satisfying the buffer invariant (C03; in particular every quiescent
+state), `SectionPacketConsumer::consume` on the `table` chain does not panic, delivers at most the one
+section its pointer bytes completed — nothing at all when the buffer layer was `Complete` — and
+leaves the chain RESET: `lastVersion = none`, buffer empty and `Complete`.  The dedup layer has
+forgotten the version it applied. -/
+theorem short_start_resets (s : St) (hs : PsiInv .syntax s) (q : Pl) (hus : q.us = true)
+    (hshort : ShortStart q.bytes) :
+    ∃ s' ds, consumePayload Psi.table s q.us q.bytes q.off = .ok (s', ds)
+      ∧ s'.lastVersion = none ∧ s'.remaining = none ∧ s'.buf = [] ∧ s'.dedupIgnore = false
+      ∧ ds.length ≤ 1 ∧ (s.remaining = none → ds = []) := by
+  rw [hus]
+  obtain ⟨s', ds, h, a, b, c, d, _, e, f⟩ := short_start_consume s hs q.bytes q.off hshort
+  exact ⟨s', ds, h, a, b, c, d, e, f⟩
+
+/-- the same for a quiescent filter and a whole 188-byte packet: NO delivery, version forgotten -/
+theorem short_start_resets_packet (v : Nat) (s : St) (hq : Quiescent v s) (p : Bytes) (hl : p.length = 188)
+    (q : Pl) (hpl : plOf p = some q) (hus : q.us = true) (hshort : ShortStart q.bytes) :
+    ∃ s', Psi.consume Psi.table s p = .ok (s', []) ∧ s'.lastVersion = none ∧ s'.remaining = none := by
+  obtain ⟨s', ds, h, a, b, c⟩ := short_start_packet s (quiescent_inv v s hq) p hl q hpl hus hshort
+  rw [c hq.2] at h
+  exact ⟨s', h, a, b⟩
+
+/-- **F8, filter level, in general.**  A filter quiescent at `v`; one short-start payload; then ANY
+well-formed transmission of ANY well-formed section `S` with the SAME `version_number = v`: `S` is
+DELIVERED (to the CRC layer and, if its CRC verifies, applied again). -/
+theorem short_start_then_repeat_reapplied (v : Nat) (s : St) (hq : Quiescent v s)
+    (b : Bytes) (off0 : Nat) (hshort : ShortStart b)
+    (S : Bytes) (hS : WellFormedSection .syntax S) (h8 : 8 ≤ S.length) (hv : versionOf S = v)
+    (m : Mux) (hm : WellFormedMux .syntax S m) (off : Nat) (rest : List Pl)
+    (hus : ∀ q ∈ rest, q.us = false) (hrest : rest.map (·.bytes) = m.rest) :
+    ∃ sfin, runPl Psi.table s (⟨true, b, off0⟩ :: ⟨true, m.first S, off⟩ :: rest)
+        = .ok (sfin, [⟨S, if m.k = S.length then some (off + 1 + m.pre.length) else none⟩])
+      ∧ Quiescent v sfin := by
+  obtain ⟨s1, ds, h1, a, b1, _, _, _, _, c⟩ := short_start_consume s (quiescent_inv v s hq) b off0 hshort
+  rw [c hq.2] at h1
+  obtain ⟨sfin, h2, _, h3, _⟩ := applied_sets_version S hS h8 m hm s1 (psiInv_of_none _ _ b1)
+    (by rw [a]; exact fun e => by cases e) off rest hus hrest
+  rw [preSpec_idle _ _ _ b1] at h2
+  refine ⟨sfin, ?_, by rw [← hv]; exact h3⟩
+  have e : runPl Psi.table s (⟨true, b, off0⟩ :: ⟨true, m.first S, off⟩ :: rest)
+      = (consumePayload Psi.table s true b off0 >>= fun r1 =>
+          runPl Psi.table r1.1 (⟨true, m.first S, off⟩ :: rest) >>= fun r2 => R.ok (r2.1, r1.2 ++ r2.2)) := by
+    cases hc : consumePayload Psi.table s true b off0 with
+    | panic msg => simp only [runPl, hc]; rfl
+    | ok r1 =>
+      obtain ⟨sa, da⟩ := r1
+      simp only [runPl, hc, R.ok_bind]
+      rfl
+  rw [e, h1]
+  simp only [R.ok_bind, h2, List.nil_append]
+
+/-- **which hypothesis excludes F8.**  A short start is never a repetition payload: `RepPayload`
+demands a `WellFormedMux`, whose clause `minHeader .syntax = 8 ≤ (S.take m.k ++ m.tailBytes).length`
+puts at least 8 section bytes behind the pointer bytes.  Hence no theorem of this file whose
+hypothesis is `RepPayload` / `RepPacket` (and no history admitted by `Realises`) says anything about
+a stream containing such a packet. -/
+theorem short_start_not_repPayload (v : Nat) (q : Pl) (hus : q.us = true) (hshort : ShortStart q.bytes) :
+    ¬ RepPayload v q := by
+  rintro (h | ⟨S, m, _, _, _, hm, _, hb⟩)
+  · rw [hus] at h; cases h
+  · obtain ⟨_, hmin, hsz, _, _⟩ := hm
+    have hmin' : 8 ≤ (S.take m.k ++ m.tailBytes).length := hmin
+    have hfl := first_length S m
+    have hlt : m.pre.length < 256 := by have := hsz.2; omega
+    have hb0 : byteD (m.first S) 0 = m.pre.length := by
+      unfold Mux.first
+      rw [byteD_cons_zero, UInt8.toNat_ofNat']
+      exact Nat.mod_eq_of_lt hlt
+    obtain ⟨_, h2⟩ := hshort
+    rw [hb, hb0, hfl] at h2
+    omega
+
+/-- `short_start_resets_packet` and `short_start_then_repeat_reapplied` on the packets of probe F8:
+the straddling packet on a PAT filter that has applied version 0, then the ordinary PAT v0 packet -/
+example : ∃ s', Psi.consume Psi.table { lastVersion := some 0 } straddlePkt = .ok (s', [])
+    ∧ s'.lastVersion = none ∧ s'.remaining = none :=
+  short_start_resets_packet 0 _ ⟨rfl, rfl⟩ straddlePkt straddle_plOf.2.2.1 _ straddle_plOf.1 rfl straddle_short
+
+example : ∃ sfin, runPl Psi.table { lastVersion := some 0 }
+      [⟨true, straddleMux.first patSecV0, 4⟩, ⟨true, (muxOf patSecV0).first patSecV0, 4⟩]
+      = .ok (sfin, [⟨patSecV0, some 5⟩]) ∧ Quiescent 0 sfin := by
+  obtain ⟨_, _, a3, a4, a5, a6⟩ := straddleMux_legal
+  obtain ⟨sfin, h1, h2⟩ := short_start_then_repeat_reapplied 0 { lastVersion := some 0 } ⟨rfl, rfl⟩
+    (straddleMux.first patSecV0) 4 straddle_short patSecV0 a4 (by rw [a5]; decide) a6
+    (muxOf patSecV0) (by decide +kernel) 4 [] (by simp) rfl
+  exact ⟨sfin, h1, h2⟩
+
+example : ¬ RepPacket 0 straddlePkt := fun h =>
+  short_start_not_repPayload 0 _ rfl straddle_short (h.2 _ straddle_plOf.1)
+
+/-- **the property for packetisations that may cut the section ANYWHERE** (filter level): in a
+quiescent state, any sequence of complete transmissions of well-formed version-`v` sections, each in
+any `LegalMux` packetisation (= `WellFormedMux` minus "the starting packet carries the 8-byte fixed
+header"), delivers nothing -/
+def C10_any_cut : Prop :=
+  ∀ (v : Nat) (s : St), Quiescent v s → ∀ (txs : List (Bytes × Mux)),
+    (∀ tx ∈ txs, WellFormedSection .syntax tx.1 ∧ 8 ≤ tx.1.length ∧ versionOf tx.1 = v ∧ LegalMux tx.1 tx.2) →
+    ∃ s', runPl Psi.table s (txs.flatMap (fun tx => muxPayloads tx.1 tx.2)) = .ok (s', [])
+
+/-- **F8: FALSE.**  Witness: the filter quiescent at version 0; PAT v0 transmitted with
+`pointer_field = 181` so that only its first 2 bytes are in the starting payload (`straddleMux`);
+then PAT v0 in one packet: the second copy is delivered. -/
+theorem C10_any_cut_false : ¬ C10_any_cut := by
+  intro h
+  obtain ⟨a1, _, a3, a4, a5, a6⟩ := straddleMux_legal
+  obtain ⟨s', hs'⟩ := h 0 { lastVersion := some 0 } ⟨rfl, rfl⟩
+    [(patSecV0, straddleMux), (patSecV0, muxOf patSecV0)] (by
+      intro tx hm
+      simp only [List.mem_cons, List.not_mem_nil, or_false] at hm
+      rcases hm with rfl | rfl
+      · exact ⟨a4, by rw [a5]; decide, a6, a1⟩
+      · exact ⟨a4, by rw [a5]; decide, a6, a3⟩)
+  have e : [(patSecV0, straddleMux), (patSecV0, muxOf patSecV0)].flatMap (fun tx => muxPayloads tx.1 tx.2)
+      = muxPayloads patSecV0 straddleMux ++ muxPayloads patSecV0 (muxOf patSecV0) := by
+    simp [List.flatMap_cons]
+  rw [e, straddle_then_repeat_delivered.2] at hs'
+  cases hs'
+
+/-- **F8 on the whole application, on the exact probe bytes** (`F8 demux b0t0 …`, `F8c …` of
+`/verif/known_findings.json`; `runApp {}` = harness mode `b0t0`).  `observe10` = (`construct`
+requests with their tags, elementary-stream callbacks as (tag, kind), slot 0x100, slot 0x101).
+
+* control `f8cBytes` (PAT v0, PMT v0, ES start, then PAT v0 / PMT v0 twice more): the requests are
+  `ByPid(0)`→0, `Pmt(0x100, 1)`→1, `Stream(0x100, 0x1b, 0x101, …)`→2 and nothing else; the ES
+  consumer 2 saw `start`, `begin`; slot 0x101 holds the PES filter tagged 2.
+* `f8PrefixBytes` (… PAT v0, PMT v0, then PAT v0 with its header straddling two packets): still
+  nothing — the straddling transmission itself is not applied.
+* `f8Bytes` (… then PAT v0 and PMT v0 once more): the PAT is RE-APPLIED — `Pmt(0x100, 1)`→3 — and so
+  is the PMT by the rebuilt handler — `Stream(0x100, 0x1b, 0x101, …)`→4; slot 0x101 now holds the
+  fresh PES filter tagged 4: the open PES packet of consumer 2 is orphaned.
+Identical to the output of the real code on these bytes. -/
+theorem C10_straddle_counterexample :
+    observe10 (runApp {} [f8cBytes])
+      = some ([(.byPid 0, 0), (.pmt 0x100 1, 1), (.stream 0x100 0x1b 0x101 0x101 [] [], 2)],
+          [(2, 0), (2, 1)], .pmt 0x100 1 [0x101], .pes 2)
+    ∧ observe10 (runApp {} [f8PrefixBytes])
+      = some ([(.byPid 0, 0), (.pmt 0x100 1, 1), (.stream 0x100 0x1b 0x101 0x101 [] [], 2)],
+          [(2, 0), (2, 1)], .pmt 0x100 1 [0x101], .pes 2)
+    ∧ observe10 (runApp {} [f8Bytes])
+      = some ([(.byPid 0, 0), (.pmt 0x100 1, 1), (.stream 0x100 0x1b 0x101 0x101 [] [], 2),
+           (.pmt 0x100 1, 3), (.stream 0x100 0x1b 0x101 0x101 [] [], 4)],
+          [(2, 0), (2, 1)], .pmt 0x100 1 [0x101], .pes 4) :=
+  ⟨f8c_run, f8_prefix_run, f8_run⟩
+
+/-- the same read as statements about the final table and trace; and the sixth packet of the probe
+IS a short start on a PAT filter that has applied version 0 (`short_start_resets_packet` applies) -/
+theorem C10_straddle_counterexample' :
+    (∃ t c, runApp {} [f8Bytes] = .ok (t, c)
+      ∧ requests (runApp {} [f8Bytes]) = [.byPid 0, .pmt 0x100 1, .stream 0x100 0x1b 0x101 0x101 [] [],
+          .pmt 0x100 1, .stream 0x100 0x1b 0x101 0x101 [] []]
+      ∧ Ev.construct (.stream 0x100 0x1b 0x101 0x101 [] []) 4 ∈ c.trace
+      ∧ ∃ f, t.get 0x101 = some (.pes 4 f))
+    ∧ requests (runApp {} [f8cBytes]) = [.byPid 0, .pmt 0x100 1, .stream 0x100 0x1b 0x101 0x101 [] []]
+    ∧ (∃ q, plOf straddlePkt = some q ∧ q.us = true ∧ ShortStart q.bytes ∧ straddlePkt.length = 188) := by
+  have hreq : ∀ (t : Tab Handler) (c : Ctx), requests (.ok (t, c)) = (constructs c).map (·.1) := by
+    intro t c
+    simp only [requests, constructs, List.map_filterMap]
+    congr 1; funext e; cases e <;> rfl
+  refine ⟨?_, ?_, ⟨_, straddle_plOf.1, rfl, straddle_short, straddle_plOf.2.2.1⟩⟩
+  · obtain ⟨t, c, hr, hc, _, _, h101⟩ := observe10_some _ _ f8_run
+    refine ⟨t, c, hr, (congrArg requests hr).trans ((hreq t c).trans ?_), ?_, slot_pes _ _ h101⟩
+    · rw [hc]; decide +kernel
+    · rw [← mem_constructs, hc]; decide +kernel
+  · obtain ⟨t, c, hr, hc, _⟩ := observe10_some _ _ f8c_run
+    refine (congrArg requests hr).trans ((hreq t c).trans ?_)
+    rw [hc]; decide +kernel
+
+/-! ### F9: the statement over whole histories is false -/
+
+/-- **C10 at full strength, over whole histories.**  `evs`: any well-formed history of applied PAT /
+PMT versions, elementary-stream packets and table repetitions (`Spec.RoutingHistory`); `pks`: any
+packets realising it (`Realises`: every table transmission intact, in a well-formed packetisation —
+which excludes F8's short starts), run from `Demultiplex::new` to `(t, c)`.  If the table LAST APPLIED
+on PID `p` IN THE HISTORY had version `v` (`lastAppliedOn`: the last `patApplied` if `p = 0`, the last
+`pmtApplied p` otherwise — no reference to any handler's state) and `p` still carries tables
+(`tablePid`), then any run `reps` of repetition packets of version `v` on `p` (any number, each a
+piece of any well-formed packetisation of any version-`v` section): the real loops do not panic, NO
+`construct` event is appended, and every slot other than `p` is as before. -/
+def C10_full : Prop :=
+  ∀ (cfg : App.Cfg) (evs : List Event) (pks : List Pk) (p v : Nat) (reps : List Pk) (t : Tab Handler) (c : Ctx),
+    cfg.script = [] → WF initRoute evs → Realises initRoute evs pks →
+    lastAppliedOn p evs = some v → tablePid (run initRoute evs) p = true →
+    pushModel App.sem (App.init cfg) pks = .ok (t, c) →
+    (∀ pk ∈ reps, pk.pid = p ∧ pk.flagged = false ∧ RepPacket v pk.bytes) →
+    ∃ t' c', pushModel App.sem (t, c) reps = .ok (t', c') ∧ constructs c' = constructs c
+      ∧ ∀ q, q ≠ p → t'.get q = t.get q
+
+/-- **known finding F9: `C10_full` is FALSE of the pinned code.**  Witness (the first four packets
+of probe F9 as the history, its fifth as the repetition): PAT v0 {1 → 0x100}, PMT v0 {0x1b on 0x101},
+a packet on 0x101, PAT v1 with the SAME program loop; then PMT v0 again on 0x100.  The last table
+applied on 0x100 had version 0 and the packet is a repetition packet of version 0, yet it appends a
+`construct` event (the stream handler is re-requested, tag 4): PAT v1 rebuilt the PMT handler of the
+unchanged program, and the new instance's `lastVersion` is `none`. -/
+theorem C10_full_false : ¬ C10_full := by
+  intro h
+  obtain ⟨t, c, -, hrun, -, -, -, hlog, -⟩ :=
+    Ts.Props.C05History.routing_refines {} rfl f9Hist f9Pks f9_wf f9_realises
+  obtain ⟨t', c', hrep, hcs, -⟩ := h {} f9Hist f9Pks 0x100 0 [f9Rep] t c rfl f9_wf f9_realises
+    (by decide +kernel) (by decide +kernel) hrun
+    (by intro pk hm; rw [List.mem_singleton] at hm; subst hm; exact ⟨rfl, rfl, pmtPkt_rep 1 (by decide)⟩)
+  have hall : pushModel App.sem (App.init {}) (f9Pks ++ [f9Rep]) = .ok (t', c') := by
+    rw [Ts.Props.C06.push_refines_spec] at hrun hrep ⊢
+    rw [pushSpec_append_aux, hrun]
+    exact hrep
+  obtain ⟨t2, c2, hr2, hc2, -⟩ := observe10_some _ _ f9_run
+  rw [Ts.Props.C05History.runApp_one {} f9Bytes _ f9_frame, hall] at hr2
+  cases hr2
+  rw [hcs, hlog, f9_requests] at hc2
+  exact absurd hc2 (by decide)
+
+/-- **F9 on the exact probe bytes** (`F9 demux b0t0 …`).  After PAT v0, PMT v0, ES start, PAT v1 the
+requests are `ByPid(0)`→0, `Pmt(0x100,1)`→1, `Stream(…0x101…)`→2, `Pmt(0x100,1)`→3 (the rebuilt PMT
+handler, nothing registered); slot 0x101 still holds the PES filter tagged 2, which saw `start`,
+`begin`.  The repeated PMT v0 then adds `Stream(…0x101…)`→4 and REPLACES slot 0x101 by the fresh PES
+filter tagged 4.  Identical to the output of the real code. -/
+theorem C10_F9_counterexample :
+    observe10 (runApp {} [f9PrefixBytes])
+      = some ([(.byPid 0, 0), (.pmt 0x100 1, 1), (.stream 0x100 0x1b 0x101 0x101 [] [], 2), (.pmt 0x100 1, 3)],
+          [(2, 0), (2, 1)], .pmt 0x100 1 [], .pes 2)
+    ∧ observe10 (runApp {} [f9Bytes])
+      = some ([(.byPid 0, 0), (.pmt 0x100 1, 1), (.stream 0x100 0x1b 0x101 0x101 [] [], 2), (.pmt 0x100 1, 3),
+           (.stream 0x100 0x1b 0x101 0x101 [] [], 4)],
+          [(2, 0), (2, 1)], .pmt 0x100 1 [0x101], .pes 4) :=
+  ⟨f9_prefix_run, f9_run⟩
+
+/-! ### the strongest true statement at history level -/
+
+/-- **C10, partial (history level).**  The history splits as `pre ++ ev :: post` where `ev` is the
+LAST table applied on `p` (version `v`; nothing in `post` applies a table on `p`) and — the extra
+hypothesis — no PAT version in `post` lists `p` in its program loop (vacuous for `p = 0`).  Then, for
+the packets of any realisation run from `Demultiplex::new` (either build, no recorder script), any
+run of repetition packets of version `v` on `p`: the real loops return the SAME context (no request,
+no elementary-stream event, no tag consumed), every other slot — every elementary-stream handler with
+its continuity counter and open/closed PES state — is untouched, slot `p` holds an equivalent handler.
+
+What `Realises` contributes (and hides): between the applications, every packet on a table PID is a
+repetition packet in the sense of `RepPacket` (or carries no payload / a continuation), so no short
+start (F8) occurs.  What the extra hypothesis contributes: the handler instance that applied `ev` is
+still the one in slot `p` (F9). -/
+theorem C10_partial (cfg : App.Cfg) (hscript : cfg.script = []) (pre post : List Event) (ev : Event)
+    (pks : List Pk) (p v : Nat) (reps : List Pk) (t : Tab Handler) (c : Ctx)
+    (hwf : WF initRoute (pre ++ ev :: post)) (hre : Realises initRoute (pre ++ ev :: post) pks)
+    (hev : appliedOn p ev = some v)
+    (hpost : ∀ e ∈ post, appliedOn p e = none ∧ ∀ v' es, e = .patApplied v' es → p ∉ es.map PatEntry.pid)
+    (hrt : tablePid (run initRoute (pre ++ ev :: post)) p = true)
+    (hrun : pushModel App.sem (App.init cfg) pks = .ok (t, c))
+    (hreps : ∀ pk ∈ reps, pk.pid = p ∧ pk.flagged = false ∧ RepPacket v pk.bytes) :
+    lastAppliedOn p (pre ++ ev :: post) = some v ∧
+    ∃ t' h h', pushModel App.sem (t, c) reps = .ok (t', c)
+      ∧ (∀ q, q ≠ p → t'.get q = t.get q)
+      ∧ t.get p = some h ∧ t'.get p = some h' ∧ RepRel v h h' := by
+  refine ⟨lastAppliedOn_of_split p v pre post ev hev (fun e he => (hpost e he).1), ?_⟩
+  obtain ⟨t0, c0, -, h2, hsim⟩ := Ts.Props.C05History.routing_refines_from initRoute _ _ _ pks
+    (sim_init cfg hscript) hwf hre
+  rw [show ((App.init cfg).1, (App.init cfg).2) = App.init cfg from rfl, hrun] at h2
+  cases h2
+  have htv := tableVersion_of_last initRoute pre post ev p v hev hpost hrt
+  obtain ⟨t', h, h', -, a, b, d, e, f⟩ := rep_noop_of_sim _ t c hsim p v hrt htv reps hreps
+  exact ⟨t', h, h', a, b, d, e, f⟩
+
+/-- the same in the shape of `C10_full`: its hypotheses plus `¬ RebuiltSinceLast p evs`, with the
+stronger conclusion (the whole context is unchanged) -/
+theorem C10_partial' (cfg : App.Cfg) (evs : List Event) (pks : List Pk) (p v : Nat) (reps : List Pk)
+    (t : Tab Handler) (c : Ctx) (hscript : cfg.script = []) (hwf : WF initRoute evs)
+    (hre : Realises initRoute evs pks) (hlast : lastAppliedOn p evs = some v)
+    (hrt : tablePid (run initRoute evs) p = true)
+    (hrun : pushModel App.sem (App.init cfg) pks = .ok (t, c))
+    (hreps : ∀ pk ∈ reps, pk.pid = p ∧ pk.flagged = false ∧ RepPacket v pk.bytes)
+    (hno : ¬ RebuiltSinceLast p evs) :
+    ∃ t', pushModel App.sem (t, c) reps = .ok (t', c) ∧ ∀ q, q ≠ p → t'.get q = t.get q := by
+  obtain ⟨pre, ev, post, rfl, hev, hpost⟩ := lastAppliedOn_split p v evs hlast
+  have hpost' : ∀ e ∈ post, appliedOn p e = none ∧
+      ∀ v' es, e = .patApplied v' es → p ∉ es.map PatEntry.pid := by
+    intro e he
+    refine ⟨hpost e he, ?_⟩
+    intro v' es heq hmem
+    exact hno ⟨pre, ev, post, rfl, by rw [hev]; rfl, hpost, e, he, v', es, heq, hmem⟩
+  obtain ⟨-, t', _, _, a, b, -⟩ := C10_partial cfg hscript pre post ev pks p v reps t c hwf hre hev hpost'
+    hrt hrun hreps
+  exact ⟨t', a, b⟩
+
+/-- **the gap at history level is EXACTLY F9**: whenever the conclusion of `C10_full` fails under its
+hypotheses, a PAT version listing `p` was applied after the last table applied on `p` -/
+theorem C10_gap_is_F9 (cfg : App.Cfg) (evs : List Event) (pks : List Pk) (p v : Nat) (reps : List Pk)
+    (t : Tab Handler) (c : Ctx) (hscript : cfg.script = []) (hwf : WF initRoute evs)
+    (hre : Realises initRoute evs pks) (hlast : lastAppliedOn p evs = some v)
+    (hrt : tablePid (run initRoute evs) p = true)
+    (hrun : pushModel App.sem (App.init cfg) pks = .ok (t, c))
+    (hreps : ∀ pk ∈ reps, pk.pid = p ∧ pk.flagged = false ∧ RepPacket v pk.bytes)
+    (hfail : ¬ ∃ t' c', pushModel App.sem (t, c) reps = .ok (t', c') ∧ constructs c' = constructs c
+      ∧ ∀ q, q ≠ p → t'.get q = t.get q) :
+    RebuiltSinceLast p evs := by
+  apply Classical.byContradiction
+  intro hno
+  obtain ⟨t', a, b⟩ := C10_partial' cfg evs pks p v reps t c hscript hwf hre hlast hrt hrun hreps hno
+  exact hfail ⟨t', c, a, rfl, b⟩
+
+/-- the F9 history does have the PAT in between -/
+example : RebuiltSinceLast 0x100 f9Hist :=
+  ⟨[.patApplied 0 [.program 1 0x100]], .pmtApplied 0x100 0 pmtBodyV0,
+   [.esPacket 0x101, .patApplied 1 [.program 1 0x100]], rfl, by decide, by decide +kernel,
+   .patApplied 1 [.program 1 0x100], by simp, 1, [.program 1 0x100], rfl, by decide⟩
+
+/-! ### repetitions can be deleted from any interleaving -/
+
+/-- **C10, arbitrary interleavings ("placed anywhere relative to elementary-stream packets").**
+`pks`: any packet sequence in which every packet marked `isRep` is an unflagged repetition packet on
+a PID whose slot (in `t`) holds a table handler quiescent at that version, and every other packet
+goes to a PID whose slot holds an elementary-stream handler (any number of elementary PIDs, flagged
+packets allowed).  If the run over `pks` WITH ALL REPETITION PACKETS DELETED succeeds with context
+`cB`, the run over `pks` succeeds with EXACTLY the same context — so every consumer's trace of
+`start_stream` / `begin_packet` / `continue_packet` / `end_packet` / `continuity_error` events is the
+one it would have seen without the repetitions — and the final tables agree slot by slot, except
+that on repetition PIDs the table handler may have been rewritten by an equivalent one (`RepRel`);
+in particular every elementary-stream handler ends in the same state.
+Scope: per handler instance and per `RepPacket`, as for `repetition_run_noop`. -/
+theorem repetitions_deletable (ver : Nat → Nat) (isRep : Pk → Bool) (t : Tab Handler) (c : Ctx)
+    (pks : List Pk)
+    (hrep : ∀ pk ∈ pks, isRep pk = true → pk.flagged = false ∧ RepPacket (ver pk.pid) pk.bytes
+      ∧ ∃ h, t.get pk.pid = some h ∧ QuiescentH (ver pk.pid) h)
+    (hoth : ∀ pk ∈ pks, isRep pk = false → ∃ tag f, t.get pk.pid = some (.pes tag f))
+    (tB : Tab Handler) (cB : Ctx)
+    (hB : pushSpec App.sem (t, c) (pks.filter (fun pk => !isRep pk)) = .ok (tB, cB)) :
+    ∃ tA, pushSpec App.sem (t, c) pks = .ok (tA, cB) ∧ pushModel App.sem (t, c) pks = .ok (tA, cB)
+      ∧ (∀ q, tA.get q = tB.get q ∨
+          ((∃ pk ∈ pks, isRep pk = true ∧ pk.pid = q) ∧
+            ∃ hA hB, tA.get q = some hA ∧ tB.get q = some hB ∧ RepRel (ver q) hB hA))
+      ∧ (∀ q tag f, tB.get q = some (.pes tag f) → tA.get q = some (.pes tag f)) := by
+  obtain ⟨tA, h1, h2⟩ := reps_deletable_aux ver isRep (fun q => ∃ pk ∈ pks, isRep pk = true ∧ pk.pid = q)
+    pks t t c (fun q => Or.inl rfl)
+    (fun pk hm hr => by
+      obtain ⟨a, b, d⟩ := hrep pk hm hr
+      exact ⟨⟨pk, hm, hr, rfl⟩, a, b, d⟩) hoth tB cB hB
+  refine ⟨tA, h1, by rw [Ts.Props.C06.push_refines_spec]; exact h1, h2, ?_⟩
+  intro q tag f hg
+  rcases h2 q with e | ⟨_, hA, hB', e1, e2, e3⟩
+  · rw [e]; exact hg
+  · rw [hg] at e2; cases e2; exact e3.elim
+
+/-! ### non-vacuity of the main theorems, on the packets of the probes -/
+
+/-- `pmt_handler_noop` on the repeated PMT packet of probe F8c: the instance that applied it -/
+example : ∃ s', App.consume (.pmt 0x100 1 { lastVersion := some 0 } [0x101]) exCtx (pkAt (pmtPkt 1 pmtSecV0) 4 0x100)
+    = .ok (.pmt 0x100 1 s' [0x101], exCtx, []) ∧ Quiescent 0 s' ∧ s'.buf = [] :=
+  pmt_handler_noop 0 _ _ _ _ ⟨rfl, rfl⟩ _ _ (pmtPkt_rep 1 (by decide))
+
+/-- `dedup_blocks_equal_version` on a MULTI-PACKET repetition: the 201-byte PMT, 183 bytes in the
+unit-start payload, 18 (+ stuffing) in a continuation payload, one extra stuffing payload -/
+example : ∃ s', runPl Psi.table { lastVersion := some 0 }
+      [⟨true, bigMux.first bigPmt, 4⟩, ⟨false, bigPmt.drop 183 ++ List.replicate 166 0xff, 4⟩] = .ok (s', [])
+    ∧ Quiescent 0 s' ∧ s'.buf = [] :=
+  dedup_blocks_equal_version 0 _ ⟨rfl, rfl⟩ bigPmt bigPmt_facts.1 (by rw [bigPmt_facts.2.1]; decide)
+    bigPmt_facts.2.2.1 bigMux bigPmt_facts.2.2.2.2 4 _ (by decide) rfl
+
+/-- `dedup_blocks_equal_version_n`: two consecutive repetitions, the second in three payloads -/
+example : ∃ s', runPl Psi.table { lastVersion := some 0 }
+      ([⟨true, (muxOf patGood).first patGood, 4⟩] ++
+       [⟨true, [0x02, 0xaa, 0xbb] ++ patGood.take 8, 177⟩, ⟨false, [0x00, 0x01, 0xe1], 185⟩,
+        ⟨false, [0xe0, 0x2d, 0x50, 0x78, 0x04, 0xff], 182⟩]) = .ok (s', [])
+    ∧ Quiescent 0 s' ∧ s'.buf = [] :=
+  dedup_blocks_equal_version_n 0 _ ⟨rfl, rfl⟩
+    [(patGood, muxOf patGood, 4, []),
+     (patGood, ⟨[0xaa, 0xbb], 8, [], [[0x00, 0x01, 0xe1], [0xe0, 0x2d, 0x50, 0x78, 0x04, 0xff]], []⟩, 177,
+       [⟨false, [0x00, 0x01, 0xe1], 185⟩, ⟨false, [0xe0, 0x2d, 0x50, 0x78, 0x04, 0xff], 182⟩])]
+    (by
+      intro tx hm
+      simp only [List.mem_cons, List.not_mem_nil, or_false] at hm
+      rcases hm with rfl | rfl
+      · exact ⟨by decide +kernel, by decide +kernel, by decide +kernel, by decide +kernel, by simp, rfl⟩
+      · exact ⟨by decide +kernel, by decide +kernel, by decide +kernel, by decide +kernel, by decide, rfl⟩)
+
+/-- `applied_once_then_repeated`: from the fresh filter, PAT v0 once, then a continuation payload and
+another copy: delivered exactly once -/
+example : ∃ sfin, runPl Psi.table {}
+      ([⟨true, (muxOf patGood).first patGood, 4⟩] ++
+       [⟨false, List.replicate 184 0xff, 4⟩, ⟨true, (muxOf patGood).first patGood, 4⟩])
+      = .ok (sfin, [⟨patGood, some 5⟩]) ∧ Quiescent 0 sfin := by
+  obtain ⟨sfin, h1, h2⟩ := applied_once_then_repeated patGood (by decide +kernel) (by decide +kernel)
+    (muxOf patGood) (by decide +kernel) {} (psiInv_of_none _ _ rfl) (by decide +kernel) 4 [] (by simp) rfl
+    [⟨false, List.replicate 184 0xff, 4⟩, ⟨true, (muxOf patGood).first patGood, 4⟩]
+    (by
+      intro q hm
+      simp only [List.mem_cons, List.not_mem_nil, or_false] at hm
+      rcases hm with rfl | rfl
+      · exact ⟨Or.inl rfl, by decide +kernel⟩
+      · exact ⟨Or.inr ⟨patGood, muxOf patGood, by decide +kernel, by decide +kernel, rfl,
+          by decide +kernel, rfl, rfl⟩, by decide +kernel⟩)
+  exact ⟨sfin, h1, h2⟩
+
+/-- the repetition packets used below, with `ver := fun _ => 0`: PAT v0 on PID 0 (one packet), the
+201-byte PMT v0 on PID 0x100 (two packets) -/
+theorem exReps_ok : ∀ pk ∈ [pkAt (patPkt 1 patSecV0) 1 0, pkAt (bigPkt1 1) 2 0x100, pkAt (bigPkt2 2) 3 0x100],
+    pk.pid ≠ 0x101 ∧ pk.flagged = false ∧ RepPacket 0 pk.bytes
+      ∧ ∃ h, exTab.get pk.pid = some h ∧ QuiescentH 0 h := by
+  intro pk hm
+  simp only [List.mem_cons, List.not_mem_nil, or_false] at hm
+  rcases hm with rfl | rfl | rfl
+  · exact ⟨by decide, rfl, patPkt_rep 1 (by decide), _, exTab_get.1, ⟨rfl, rfl⟩⟩
+  · exact ⟨by decide, rfl, bigPkt1_rep 1 bigPkt_plOf.1 bigPkt_plOf.2.1, _, exTab_get.2.1, ⟨rfl, rfl⟩⟩
+  · exact ⟨by decide, rfl, bigPkt2_rep 2 _ bigPkt_plOf.2.2.1 bigPkt_plOf.2.2.2.1, _, exTab_get.2.1, ⟨rfl, rfl⟩⟩
+
+/-- `repetition_block_noop` -/
+example : ∃ h', RepRel 0 (.pat { lastVersion := some 0 } [0x100]) h'
+    ∧ Demux.specStep App.sem (exTab, exCtx) (pkAt (patPkt 1 patSecV0) 1 0) = .ok (exTab.insert 0 h', exCtx) := by
+  obtain ⟨h', a, b, _⟩ := repetition_block_noop 0 exTab exCtx (pkAt (patPkt 1 patSecV0) 1 0) _ exTab_get.1
+    ⟨rfl, rfl⟩ rfl (patPkt_rep 1 (by decide))
+  exact ⟨h', a, b⟩
+
+/-- `repetition_run_noop` and `es_handlers_untouched` on PAT repeat + two-packet PMT repeat: the real
+loops return the same context; the PES filter on 0x101 is exactly as before -/
+example : ∃ t', Demux.pushModel App.sem (exTab, exCtx)
+      [pkAt (patPkt 1 patSecV0) 1 0, pkAt (bigPkt1 1) 2 0x100, pkAt (bigPkt2 2) 3 0x100] = .ok (t', exCtx)
+    ∧ t'.get 0x101 = some (.pes 2 {}) := by
+  have hyp := fun pk hm => (exReps_ok pk hm).2
+  obtain ⟨t', _, h2, _, _⟩ := repetition_run_noop (fun _ => 0) exTab exCtx _ hyp
+  obtain ⟨t'', h1', h3, _⟩ := es_handlers_untouched (fun _ => 0) exTab exCtx _ hyp
+  rw [Ts.Props.C06.push_refines_spec] at h2
+  rw [h2] at h1'
+  cases h1'
+  exact ⟨t', by rw [Ts.Props.C06.push_refines_spec]; exact h2, h3 _ _ _ exTab_get.2.2⟩
+
+/-- `pes_straddles_repetition`: the PES packet opened by `esStartPkt` and continued by `esContPkt`
+straddles a PAT repetition and a two-packet PMT repetition -/
+example : ∃ tA tB cB,
+    Demux.pushSpec App.sem (exTab, exCtx) [pkAt esStartPkt 0 0x101, pkAt esContPkt 4 0x101] = .ok (tB, cB)
+    ∧ Demux.pushSpec App.sem (exTab, exCtx)
+        (pkAt esStartPkt 0 0x101 :: ([pkAt (patPkt 1 patSecV0) 1 0, pkAt (bigPkt1 1) 2 0x100,
+          pkAt (bigPkt2 2) 3 0x100] ++ [pkAt esContPkt 4 0x101])) = .ok (tA, cB)
+    ∧ tA.get 0x101 = tB.get 0x101 := by
+  obtain ⟨⟨tB, cB⟩, hB⟩ := exists_of_isOk
+    (Demux.pushSpec App.sem (exTab, exCtx) [pkAt esStartPkt 0 0x101, pkAt esContPkt 4 0x101])
+    (by decide +kernel)
+  obtain ⟨tA, h1, h2, _⟩ := pes_straddles_repetition (fun _ => 0) exTab exCtx (pkAt esStartPkt 0 0x101)
+    (pkAt esContPkt 4 0x101) _ 2 {} rfl exTab_get.2.2 exReps_ok tB cB hB
+  exact ⟨tA, tB, cB, hB, h1, h2⟩
+
+/-- `repetitions_deletable`: repetitions before, between and after the two elementary-stream
+packets, the ES continuation packet BETWEEN the two packets of the PMT repetition -/
+example : ∃ tA tB cB,
+    Demux.pushSpec App.sem (exTab, exCtx) [pkAt esStartPkt 1 0x101, pkAt esContPkt 3 0x101] = .ok (tB, cB)
+    ∧ Demux.pushModel App.sem (exTab, exCtx)
+        [pkAt (patPkt 1 patSecV0) 0 0, pkAt esStartPkt 1 0x101, pkAt (bigPkt1 1) 2 0x100,
+         pkAt esContPkt 3 0x101, pkAt (bigPkt2 2) 4 0x100, pkAt (patPkt 2 patSecV0) 5 0] = .ok (tA, cB)
+    ∧ tA.get 0x101 = tB.get 0x101 := by
+  obtain ⟨⟨tB, cB⟩, hB⟩ := exists_of_isOk
+    (Demux.pushSpec App.sem (exTab, exCtx) [pkAt esStartPkt 1 0x101, pkAt esContPkt 3 0x101])
+    (by decide +kernel)
+  obtain ⟨tA, _, h2, h3, _⟩ := repetitions_deletable (fun _ => 0) (fun pk => pk.pid != 0x101) exTab exCtx
+    [pkAt (patPkt 1 patSecV0) 0 0, pkAt esStartPkt 1 0x101, pkAt (bigPkt1 1) 2 0x100,
+     pkAt esContPkt 3 0x101, pkAt (bigPkt2 2) 4 0x100, pkAt (patPkt 2 patSecV0) 5 0]
+    (by
+      intro pk hm hr
+      simp only [List.mem_cons, List.not_mem_nil, or_false] at hm
+      rcases hm with rfl | rfl | rfl | rfl | rfl | rfl
+      · exact ⟨rfl, patPkt_rep 1 (by decide), _, exTab_get.1, ⟨rfl, rfl⟩⟩
+      · cases hr
+      · exact ⟨rfl, bigPkt1_rep 1 bigPkt_plOf.1 bigPkt_plOf.2.1, _, exTab_get.2.1, ⟨rfl, rfl⟩⟩
+      · cases hr
+      · exact ⟨rfl, bigPkt2_rep 2 _ bigPkt_plOf.2.2.1 bigPkt_plOf.2.2.2.1, _, exTab_get.2.1, ⟨rfl, rfl⟩⟩
+      · exact ⟨rfl, patPkt_rep 2 (by decide), _, exTab_get.1, ⟨rfl, rfl⟩⟩)
+    (by
+      intro pk hm hr
+      simp only [List.mem_cons, List.not_mem_nil, or_false] at hm
+      rcases hm with rfl | rfl | rfl | rfl | rfl | rfl
+      · cases hr
+      · exact ⟨2, {}, exTab_get.2.2⟩
+      · cases hr
+      · exact ⟨2, {}, exTab_get.2.2⟩
+      · cases hr
+      · cases hr)
+    tB cB hB
+  refine ⟨tA, tB, cB, hB, h2, ?_⟩
+  rcases h3 0x101 with e | ⟨⟨pk, _, hr, hp⟩, _⟩
+  · exact e
+  · rw [hp] at hr; cases hr
+
+/-- `C10_partial` on the common prefix of the probes (PAT v0, PMT v0, ES start): the PMT repetition
+(last applied on 0x100: the PMT, then an ES packet) and the PAT repetition (last applied on 0: the
+PAT, then a PMT and an ES packet) are no-ops -/
+example : ∃ t c t1 t2, pushModel App.sem (App.init {}) basePks = .ok (t, c)
+    ∧ lastAppliedOn 0x100 baseHist = some 0 ∧ lastAppliedOn 0 baseHist = some 0
+    ∧ pushModel App.sem (t, c) [pkAt (pmtPkt 1 pmtSecV0) 3 0x100] = .ok (t1, c)
+    ∧ pushModel App.sem (t, c) [pkAt (patPkt 1 patSecV0) 3 0, pkAt (patPkt 2 patSecV0) 4 0] = .ok (t2, c) := by
+  obtain ⟨t, c, -, hrun, -⟩ := Ts.Props.C05History.routing_refines {} rfl baseHist basePks base_wf base_realises
+  obtain ⟨l1, t1, _, _, a1, _⟩ := C10_partial {} rfl [.patApplied 0 [.program 1 0x100]] [.esPacket 0x101]
+    (.pmtApplied 0x100 0 pmtBodyV0) basePks 0x100 0 [pkAt (pmtPkt 1 pmtSecV0) 3 0x100] t c base_wf
+    base_realises (by decide) (by
+      intro e he
+      simp only [List.mem_cons, List.not_mem_nil, or_false] at he
+      subst he
+      exact ⟨rfl, fun v' es h => by cases h⟩)
+    (by decide +kernel) hrun
+    (by intro pk hm; rw [List.mem_singleton] at hm; subst hm; exact ⟨rfl, rfl, pmtPkt_rep 1 (by decide)⟩)
+  obtain ⟨l2, t2, _, _, a2, _⟩ := C10_partial {} rfl [] [.pmtApplied 0x100 0 pmtBodyV0, .esPacket 0x101]
+    (.patApplied 0 [.program 1 0x100]) basePks 0 0
+    [pkAt (patPkt 1 patSecV0) 3 0, pkAt (patPkt 2 patSecV0) 4 0] t c base_wf
+    base_realises (by decide) (by
+      intro e he
+      simp only [List.mem_cons, List.not_mem_nil, or_false] at he
+      rcases he with rfl | rfl
+      · exact ⟨by decide, fun v' es h => by cases h⟩
+      · exact ⟨rfl, fun v' es h => by cases h⟩)
+    (by decide +kernel) hrun
+    (by
+      intro pk hm
+      simp only [List.mem_cons, List.not_mem_nil, or_false] at hm
+      rcases hm with rfl | rfl
+      · exact ⟨rfl, rfl, patPkt_rep 1 (by decide)⟩
+      · exact ⟨rfl, rfl, patPkt_rep 2 (by decide)⟩)
+  exact ⟨t, c, t1, t2, hrun, l1, l2, a1, a2⟩
+
+/-- the multi-packet repetition through the whole model: applied once (3 requests), then repeated
+twice, the second time with an ES continuation packet between its two packets: same requests, the
+ES consumer 2 sees start, begin, continue and nothing else, and keeps its slot -/
+example :
+    observe10 (runApp {} [patPkt 0 patSecV0 ++ bigPkt1 0 ++ bigPkt2 1 ++ esStartPkt])
+      = some (bigConstructs, [(2, 0), (2, 1)], .pmt 0x100 1 [0x101], .pes 2)
+    ∧ observe10 (runApp {} [patPkt 0 patSecV0 ++ bigPkt1 0 ++ bigPkt2 1 ++ esStartPkt ++ bigPkt1 2
+          ++ bigPkt2 3 ++ bigPkt1 4 ++ esContPkt ++ bigPkt2 5])
+      = some (bigConstructs, [(2, 0), (2, 1), (2, 2)], .pmt 0x100 1 [0x101], .pes 2) :=
+  ⟨bigPmt_run, bigPmt_rep_run⟩
 
 end Ts.Props.C10
